@@ -33,7 +33,7 @@ use std::collections::BTreeMap;
 
 use crate::{
     append::Append,
-    encode::{self, pattern::PatternEncoder, Encode},
+    encode::{self, pattern::PatternEncoder, writer::simple::SimpleWriter, Encode},
 };
 
 #[cfg(feature = "config_parsing")]
@@ -189,10 +189,10 @@ impl Append for RollingFileAppender {
             crate::verif_hooks::critical_section_point("rolling:between-policy-and-write");
 
             let log_writer_new = self.get_writer(&mut writer)?;
-            self.encoder.encode(log_writer_new, record)?;
+            log_writer_new.write_all(&self.encode_whole(record)?)?;
             log_writer_new.flush()?;
         } else {
-            self.encoder.encode(log_writer, record)?;
+            log_writer.write_all(&self.encode_whole(record)?)?;
             #[cfg(feature = "verif_hooks")]
             crate::verif_hooks::critical_section_point("rolling:between-encode-and-flush");
             log_writer.flush()?;
@@ -222,6 +222,14 @@ impl RollingFileAppender {
             append: true,
             encoder: None,
         }
+    }
+
+    /// Encodes the record into memory, so that an encoder failing half-way leaves no torn
+    /// record in the file.
+    fn encode_whole(&self, record: &Record) -> anyhow::Result<Vec<u8>> {
+        let mut buf = Vec::new();
+        self.encoder.encode(&mut SimpleWriter(&mut buf), record)?;
+        Ok(buf)
     }
 
     fn get_writer<'a>(&self, writer: &'a mut Option<LogWriter>) -> io::Result<&'a mut LogWriter> {
